@@ -1,5 +1,18 @@
+#[cfg(not(feature = "verif"))]
 use std::thread;
+#[cfg(not(feature = "verif"))]
 use std::sync::mpsc::
+{
+    self,
+    Sender,
+    Receiver,
+    SendError,
+    RecvError,
+};
+#[cfg(feature = "verif")]
+use crate::verif_shim::thread;
+#[cfg(feature = "verif")]
+use crate::verif_shim::mpsc::
 {
     self,
     Sender,
